@@ -83,8 +83,12 @@ pub open spec fn first_seq(g: &YaccGrammar, f: &Firsts, b: Seq<Symbol<$T>>, la: 
 }
 pub open spec fn beta(g: &YaccGrammar, k: Key) -> Seq<Symbol<$T>> { g.prods()[k.0.0 as int].subrange(k.1.0 + 1, g.prods()[k.0.0 as int].len() as int) }
 // item k is closed in m: when a rule follows its dot, every production of that rule is there (dot 0) with the lookaheads k gives it
+// some token is in the set
+pub open spec fn nonempty(s: Seq<bool>) -> bool { exists|i: int| 0 <= i < s.len() && #[trigger] s[i] }
+// (an LR(1) item is a production with a dot and ONE lookahead token: where no token can follow the rule after the dot --
+// the rest of the production derives no sentence -- the closure rule demands nothing)
 pub open spec fn closed_item(g: &YaccGrammar, f: &Firsts, m: IS, k: Key) -> bool {
-    k.1.0 < g.prods()[k.0.0 as int].len() ==> (g.prods()[k.0.0 as int][k.1.0 as int] matches Symbol::Rule(r) ==>
+    k.1.0 < g.prods()[k.0.0 as int].len() ==> (g.prods()[k.0.0 as int][k.1.0 as int] matches Symbol::Rule(r) ==> nonempty(first_seq(g, f, beta(g, k), m[k])) ==>
         forall|j: int| 0 <= j < g.rule_prods()[r.0 as int].len() ==> m.contains_key((#[trigger] g.rule_prods()[r.0 as int][j], SIdx(0 as $T)))
             && subset(first_seq(g, f, beta(g, k), m[k]), m[(g.rule_prods()[r.0 as int][j], SIdx(0 as $T))]))
 }
@@ -162,12 +166,15 @@ pub proof fn lemma_closed_item_stable(g: &YaccGrammar, f: &Firsts, r0: IS, r1: I
 {
     if x.1.0 < g.prods()[x.0.0 as int].len() {
         if let Symbol::Rule(rr) = g.prods()[x.0.0 as int][x.1.0 as int] {
+            assert(r1[x] == r0[x]);
+            if nonempty(first_seq(g, f, beta(g, x), r1[x])) {
             assert forall|j: int| 0 <= j < g.rule_prods()[rr.0 as int].len() implies r1.contains_key((#[trigger] g.rule_prods()[rr.0 as int][j], SIdx(0 as $T)))
                 && subset(first_seq(g, f, beta(g, x), r1[x]), r1[(g.rule_prods()[rr.0 as int][j], SIdx(0 as $T))]) by {
                 let t = (g.rule_prods()[rr.0 as int][j], SIdx(0 as $T));
                 assert(r0.contains_key(t) && subset(first_seq(g, f, beta(g, x), r0[x]), r0[t]));
                 assert(r1.dom().contains(t));
                 if t == kq { lemma_subset_trans(first_seq(g, f, beta(g, x), r0[x]), r0[t], r1[t]); } else { assert(r1[t] == r0[t]); }
+            }
             }
         }
     }
@@ -310,6 +317,7 @@ pub open spec fn ctx_of(g: &YaccGrammar, f: &Firsts, r0: IS, k: Key) -> Seq<bool
 // one `add` of the production pi0 of the rule after k's dot, with lookaheads FIRST(beta_k r0[k])
 pub proof fn lemma_add_step(g: &YaccGrammar, f: &Firsts, m0: IS, r0: IS, r1: IS, r2: IS, keys: Seq<Key>, ki: int, zt1: Seq<bool>, zt2: Seq<bool>, zt3: Seq<bool>, k: Key, pi0: int)
     requires g.wf(), f.wf(g), step_inv(g, f, m0, r0, r1, keys, ki, zt1, zt2, k, pi0), least_inv(g, f, m0, r1), pi0 < g.rule_prods()[rule_after(g, k)].len(),
+        nonempty(ctx_of(g, f, r0, k)),
         !r1.contains_key(kq_of(g, k, pi0)) ==> r2 == r1.insert(kq_of(g, k, pi0), ctx_of(g, f, r0, k)), // OBLG: C02.close.every_production_of_the_rule_after_the_dot_is_added_with_its_lookaheads
         r1.contains_key(kq_of(g, k, pi0)) ==> r2 == r1.insert(kq_of(g, k, pi0), or_seq(r1[kq_of(g, k, pi0)], ctx_of(g, f, r0, k))), // OBLG: C02.close.every_production_of_the_rule_after_the_dot_is_added_with_its_lookaheads
         // a dot-0 item that is new or gained lookaheads is queued for (re)processing; nothing else is queued
@@ -362,6 +370,10 @@ pub proof fn lemma_add_step(g: &YaccGrammar, f: &Firsts, m0: IS, r0: IS, r1: IS,
         assert(jj.contains_key(k) && closed_item(g, f, jj, k));
         lemma_subset_trans(r0[k], r1[k], jj[k]);
         lemma_first_seq_mono(g, f, beta(g, k), r0[k], jj[k]);
+        assert(nonempty(first_seq(g, f, beta(g, k), jj[k]))) by {
+            let i = choose|i: int| 0 <= i < ctx.len() && #[trigger] ctx[i];
+            assert(first_seq(g, f, beta(g, k), jj[k])[i]);
+        }
         assert(jj.contains_key((g.rule_prods()[rr][pi0], SIdx(0 as $T))));
         lemma_subset_trans(ctx, first_seq(g, f, beta(g, k), jj[k]), jj[kq]);
         assert forall|x: Key| #[trigger] r2.contains_key(x) implies jj.contains_key(x) && subset(r2[x], jj[x]) by {
@@ -495,13 +507,23 @@ impl Itemset {
                             }
         //@end
         //@rule n=1 `new_ctx\.or\(&new_is\.items\[&\(pidx, dot\)\]\);` => `let ghost ctx1_ = new_ctx@; let la_vob_ = new_is.items.idx(&(pidx, dot)); new_ctx.or(la_vob_); proof { assert(la_vob_@ == la0_); assert forall|i: int| 0 <= i < ctx1_.len() implies new_ctx@[i] == (ctx1_[i] || la_vob_@[i]) by { }; assert(new_ctx@ =~= or_seq(ctx1_, la0_)); }`
+        //@rule n=1 `^(\s*)if new_ctx\.iter_set_bits\(\.\.\)\.next\(\)\.is_none\(\) \{\n(\s*)continue;` =>>
+                proof { assert(new_ctx@ =~= target_); }
+                if new_ctx.first_set_bit().is_none() {
+                    proof {
+                        // no token can follow the rule after the dot: the closure rule demands nothing of this item
+                        assert(!nonempty(first_seq(grm, firsts, beta(grm, k_), r0_[k_])));
+                        lemma_processed(grm, firsts, m0, r0_, keys_@, ki0_, ki_ as int, zt0_, zero_todos@, k_);
+                    }
+                    continue;
+        //@end
         //@rule n=1 `^(\s*)for ref_pidx in grm\.rule_to_prods\(s_ridx\)\.iter\(\) \{$` =>>
-                proof { assert(new_ctx@ =~= target_); lemma_step_init(grm, firsts, m0, r0_, keys_@, ki0_, ki_ as int, zt0_, zero_todos@, k_); }
+                proof { assert(new_ctx@ =~= target_); assert(nonempty(target_)); lemma_step_init(grm, firsts, m0, r0_, keys_@, ki0_, ki_ as int, zt0_, zero_todos@, k_); }
                 let rps_ = grm.rule_to_prods(s_ridx);
                 let mut pi_: usize = 0;
                 while pi_ < rps_.len()
                     invariant pi_ <= rps_@.len(), grm.wf(), firsts.wf(grm), rps_@ == grm.rule_prods()[s_ridx.0 as int], (s_ridx.0 as nat) < grm.nrules(),
-                        new_ctx@ == target_, target_ == first_seq(grm, firsts, beta(grm, k_), la0_), new_ctx@.len() == grm.ntok(),
+                        new_ctx@ == target_, target_ == first_seq(grm, firsts, beta(grm, k_), la0_), new_ctx@.len() == grm.ntok(), nonempty(target_),
                         r0_.contains_key(k_), la0_ == r0_[k_], k_ == (pidx, dot), dot.0 < grm.prods()[pidx.0 as int].len(), grm.prods()[pidx.0 as int][dot.0 as int] == Symbol::Rule(s_ridx),
                         step_inv(grm, firsts, m0, r0_, new_is.items.m(), keys_@, ki_ as int, zt1_, zero_todos@, k_, pi_ as int),
                         least_inv(grm, firsts, m0, new_is.items.m()),
